@@ -554,6 +554,39 @@ func genC14(g *gen) {
 		})
 	}
 	g.line("Definition gen_replay_sequence_is_stored_one_fresh_only_for_own : bool := %s.", coqBool(seqFromKey && freshOwn && incCalls == 1))
+	// the sequence is chosen inside the loop over splitRoutes(routes): one advertisement (and, for own routes, one
+	// fresh sequence number) per group that fits a frame; the advertisement carries that group
+	inSplit := floodInRangeOver(sft, "splitRoutes(routes)", func(n ast.Node) bool { return isStmtText(n, "seq := key.seq") }) &&
+		floodInRangeOver(sft, "splitRoutes(routes)", func(n ast.Node) bool { return isStmtText(n, "seq = f.routeMgr.IncrementSequence()") })
+	g.line("Definition gen_replay_sequence_chosen_per_split_group : bool := %s.", coqBool(inSplit && compositeField(sft, "&protocol.RouteAdvertise", "Routes") == "group"))
+	// bestGroup: of the foreign groups with one (origin, sequence) only the preferred one is replayed
+	sizeOK := hasNode(sft, func(n ast.Node) bool {
+		return isStmtText(n, "return len(byOrigin[k]) + len(agentByOrigin[k]) + len(forwardByOrigin[k]) + len(domainByOrigin[k])")
+	})
+	skipOwn := floodInRangeOver(sft, "allOrigins", func(n ast.Node) bool {
+		is, ok := n.(*ast.IfStmt)
+		if !ok || norm(src(is.Cond)) != "key.origin == f.localID" || len(is.Body.List) != 1 {
+			return false
+		}
+		b, ok := is.Body.List[0].(*ast.BranchStmt)
+		return ok && b.Tok == token.CONTINUE
+	})
+	prefer := hasNode(sft, func(n ast.Node) bool {
+		is, ok := n.(*ast.IfStmt)
+		return ok && norm(src(is.Cond)) == "!ok || groupSize(key) > groupSize(cur) || (groupSize(key) == groupSize(cur) && (len(key.path) < len(cur.path) || (len(key.path) == len(cur.path) && key.path < cur.path)))" &&
+			len(is.Body.List) == 1 && isStmtText(is.Body.List[0], "bestGroup[ak] = key")
+	})
+	akOK := hasNode(sft, func(n ast.Node) bool {
+		return isStmtText(n, "ak := AdvertisementKey{OriginAgent: key.origin, Sequence: key.seq}")
+	})
+	drop := hasNode(sft, func(n ast.Node) bool {
+		is, ok := n.(*ast.IfStmt)
+		return ok && norm(src(is.Cond)) == "key.origin != f.localID && bestGroup[AdvertisementKey{OriginAgent: key.origin, Sequence: key.seq}] != key" &&
+			len(is.Body.List) == 1 && isStmtText(is.Body.List[0], "delete(allOrigins, key)")
+	})
+	pDrop := posOf(sft, func(n ast.Node) bool { return isStmtText(n, "delete(allOrigins, key)") })
+	pOnPath := posOf(sft, func(n ast.Node) bool { return isExprText(n, "containsAgent(path, peerID)") })
+	g.line("Definition gen_replay_keeps_best_group_per_origin_sequence : bool := %s.", coqBool(sizeOK && skipOwn && prefer && akOK && drop && pDrop > 0 && pDrop < pOnPath))
 	g.line("Definition gen_replay_adv_sequence : string := %s.", coqString(compositeField(sft, "&protocol.RouteAdvertise", "Sequence")))
 	g.line("Definition gen_replay_adv_origin : string := %s.", coqString(compositeField(sft, "&protocol.RouteAdvertise", "OriginAgent")))
 	g.line("Definition gen_replay_adv_seenby : string := %s.", coqString(compositeField(sft, "&protocol.RouteAdvertise", "SeenBy")))
@@ -585,7 +618,17 @@ func genC14(g *gen) {
 		compositeField(an, "&protocol.RouteAdvertise", "Sequence") == "seq" &&
 		compositeField(an, "&protocol.RouteAdvertise", "OriginAgent") == "f.localID" &&
 		compositeField(an, "&protocol.RouteAdvertise", "SeenBy") == "[]identity.AgentID{f.localID}"
-	g.line("Definition gen_announce_fresh_sequence_own_origin : bool := %s.", coqBool(fresh))
+	perGroup := floodInRangeOver(an, "splitRoutes(routes)", func(x ast.Node) bool { return isStmtText(x, "seq := f.routeMgr.IncrementSequence()") }) &&
+		compositeField(an, "&protocol.RouteAdvertise", "Routes") == "group"
+	g.line("Definition gen_announce_fresh_sequence_own_origin : bool := %s.", coqBool(fresh && perGroup))
+	// splitRoutes: at most this many routes per advertisement (the model assumes route sets that fit one)
+	maxRoutes := int64(-1)
+	if e := constExpr(ff, "maxRoutesPerAdvertise"); e != nil {
+		if v, ok := intLit(e, nil); ok {
+			maxRoutes = v
+		}
+	}
+	g.line("Definition gen_max_routes_per_advertisement : N := %d%%N.", nz(maxRoutes))
 	inc := findFuncInDir("internal/routing", "Manager", "IncrementSequence")
 	incOK := hasNode(inc, func(x ast.Node) bool { return isStmtText(x, "m.sequence++") }) &&
 		hasNode(inc, func(x ast.Node) bool { return isStmtText(x, "return m.sequence") })
@@ -723,4 +766,27 @@ func genC15(g *gen) {
 	}
 	g.line("Local Open Scope N_scope.")
 	g.line("Definition gen_config_default_max_hops : N := %d.", nz(def))
+}
+
+// floodInRangeOver reports whether fd contains a `for ... := range <over>`
+// statement whose body contains a node satisfying pred.
+func floodInRangeOver(fd *ast.FuncDecl, over string, pred func(ast.Node) bool) bool {
+	if fd == nil || fd.Body == nil {
+		return false
+	}
+	found := false
+	ast.Inspect(fd.Body, func(n ast.Node) bool {
+		rs, ok := n.(*ast.RangeStmt)
+		if !ok || norm(src(rs.X)) != over {
+			return true
+		}
+		ast.Inspect(rs.Body, func(m ast.Node) bool {
+			if m != nil && !found && pred(m) {
+				found = true
+			}
+			return !found
+		})
+		return true
+	})
+	return found
 }
